@@ -8,11 +8,8 @@ import sys
 HERE = os.path.dirname(os.path.dirname(os.path.abspath(__file__)))
 sys.path.insert(0, HERE)
 
-NOT_APPLICABLE = {
-    "C09": "outcome independent of body framing / poll schedule: a schedule-and-partition quantifier over the run-time state of "
-           "three hand-written incremental parsers; no exact structural necessary condition exists that is not a frozen description "
-           "of today's code (DESIGN.md section 3, C09) - static analysis does not apply",
-}
+# every property has a check now; C09 is claimed for five structural necessary conditions only (its schedule quantifier is listed as not decided)
+NOT_APPLICABLE = {}
 PENDING = "check not built yet (build phase in progress; see DESIGN.md section 8)"
 
 props = [json.loads(l) for l in open(os.path.join(HERE, "properties.jsonl"))]
